@@ -38,6 +38,12 @@ kila- = 1000
 foo = 3 * xm
 bar = 5 * foo
 baz = 2 * xs
+sp0 = 2 * foo
+sp1 = 3 * foo
+sp2 = 5 * foo
+sp3 = 7 * foo
+sp4 = 11 * foo
+sp5 = 13 * foo
 @context ca = caa
     [xlen] -> [xtime]: value * 2 * xs / xm
 @end
@@ -81,7 +87,10 @@ OPS = ([("enable", c, None) for c in CTX] + [("enable", "cb", Fraction(11)), ("e
        + [("with", ("ca",), None), ("with", ("cr", "cb"), None), ("with", ("cm",), Fraction(2)), ("with", (), None), ("exit",), ("raise",)]
        + [("fail", b) for b in BAD] + [("failwith", "bad_undefined")] + [("define",)]
        # per-call contexts (Quantity.to / ito with a context name): scoped to the call, also when the conversion fails (ca has no path to mass)
-       + [("call", "to", "xs"), ("call", "ito", "xs"), ("call", "to", "xg"), ("call", "ito", "xg")])
+       + [("call", "to", "xs"), ("call", "ito", "xs"), ("call", "to", "xg"), ("call", "ito", "xg")]
+       # a rules-only context activated with a parameter value that cannot be hashed: refused while the active contexts redefine units (the
+       # combination is keyed by its parameters), accepted otherwise; either way nothing may be left behind once it is gone again
+       + [("trykw", "cb")])
 
 
 def tasks(tier, seed):
@@ -237,6 +246,22 @@ class Boom(Exception):
     pass
 
 
+SPARE = [("sp0", 2), ("sp1", 3), ("sp2", 5), ("sp3", 7), ("sp4", 11), ("sp5", 13)]
+
+
+def cold_probe(ureg, model, used, where):
+    """a unit that nothing has asked about yet in this sequence (the battery warms every cache it touches, and a warm cache hides a lost units
+    overlay): its value must follow the redefinitions in force according to the model"""
+    if len(used) >= len(SPARE):
+        return
+    name, mult = SPARE[len(used)]
+    used.append(name)
+    got = Fraction(ureg.Quantity(1, name).to("xm").magnitude)
+    want = mult * model.expect()["foo->xm"]
+    if got != want:
+        raise Violation("state_differs_from_stack_model:redefinition:unit_not_asked_before", f"{where}: first question about {name} (= {mult} foo): {got} xm, the operations imply {want}")
+
+
 def run_sequence(ops, col=None):
     logging.disable(logging.CRITICAL)
     # a listed known finding is excluded by construction (the comparison it concerns is skipped and counted), so that the rest of every
@@ -249,6 +274,7 @@ def run_sequence(ops, col=None):
         compare(base, model.expect(), base, "fresh registry", skip)
         managers = []
         trace = []
+        cold_used = []
         for op in ops:
             op = tuple(op)
             trace.append(op)
@@ -303,6 +329,23 @@ def run_sequence(ops, col=None):
                 if after != before:
                     diff = {k: (before[k], after[k]) for k in before if before[k] != after[k]}
                     raise Violation(f"failed_activation_changed_state:{'with' if kind == 'failwith' else 'enable'}", f"{where}: activation of {op[1]} raised {type(r).__name__} but changed {diff}")
+                cold_probe(ureg, model, cold_used, where)
+            elif kind == "trykw":
+                before = observe(ureg)
+                s, r = attempt(ureg.enable_contexts, op[1], p=[1, 2])
+                if s == "ok":
+                    ureg.disable_contexts(1)
+                after = observe(ureg)
+                if model.defined == "?":
+                    before = {k: v for k, v in before.items() if k != "newu" and not k.startswith("compatible")}
+                    after = {k: v for k, v in after.items() if k in before}
+                if KNOWN_BASE in skip:
+                    before.pop("bar->xm:base", None)
+                    after.pop("bar->xm:base", None)
+                if after != before:
+                    diff = {k: (before[k], after[k]) for k in before if before[k] != after[k]}
+                    raise Violation(f"failed_activation_changed_state:unhashable_parameter:{'accepted' if s == 'ok' else 'refused'}", f"{where}: enable_contexts({op[1]!r}, p=[1, 2]) {'was accepted and disabled again' if s == 'ok' else 'raised ' + type(r).__name__} but changed {diff}")
+                cold_probe(ureg, model, cold_used, where)
             elif kind == "call":
                 before = observe(ureg)
                 q = ureg.Quantity(1, "xm")
